@@ -401,12 +401,16 @@ class MandolineT(ToolCase):
             elif k == 3:
                 self.pos = lo + (hi - lo) * src.draw("pos.fine", 1, 999) / 1000.0
         self.preexisting = bool(src.draw("preexisting_out", 0, 1)) if self.fformat == "plotfile" else False
+        self.earlier = None
+        others = [f for f in m.fields if f not in self.fields]
+        if others and src.flag("earlier_slice", 4):
+            self.earlier = others[src.draw("earlier_slice.f", 0, len(others) - 1)]
         self.draw_forms(src)
         if self.fformat == "return":
             self.opts["cli"] = False
             self.opts["out"] = "abs"
         self.opts.update(fformat=self.fformat, fields=self.fields, limit=self.limit, serial=self.serial,
-                         normal=self.normal, pos=self.pos, preexisting=self.preexisting)
+                         normal=self.normal, pos=self.pos, preexisting=self.preexisting, earlier=self.earlier)
 
     def materialise(self, root):
         p = os.path.join(root, "data", "plt00100")
@@ -440,6 +444,13 @@ class MandolineT(ToolCase):
         from amr_kitchen.mandoline.mandoline import Mandoline
 
         def go():
+            if getattr(self, "earlier", None):
+                # another Mandoline object sliced another field of this plotfile before, serially, in this process
+                try:
+                    Mandoline(inp, fields=[self.earlier], limit_level=self.limit, serial=True, verbose=0).slice(
+                        normal=self.normal, pos=self.pos, fformat="return")
+                except Exception:
+                    pass
             md = Mandoline(inp, fields=list(self.fields), limit_level=self.limit, serial=self.serial, verbose=0)
             return md.slice(normal=self.normal, pos=self.pos, outfile=out_arg, fformat=self.fformat)
         return run_tool(ctx, go, cwd=cwd, label=f"Mandoline({inp},{self.fields},L={self.limit},serial={self.serial})"
